@@ -104,6 +104,26 @@ def _tag_on(text_lines, gen_line):
     return None
 
 
+_RUN_DIR = None
+_RUN_LOCK = __import__("threading").Lock()
+
+
+def _run_dir():
+    global _RUN_DIR
+    with _RUN_LOCK:
+        if _RUN_DIR is None:
+            import tempfile
+            os.makedirs(BUILD, exist_ok=True)
+            _RUN_DIR = tempfile.mkdtemp(prefix="run_%d_" % os.getpid(), dir=BUILD)
+    return _RUN_DIR
+
+
+def cleanup_run_dir():
+    import shutil
+    if _RUN_DIR is not None:
+        shutil.rmtree(_RUN_DIR, ignore_errors=True)
+
+
 def run_unit(unit, variant, multiple_errors=20, extra_args=(), rlimit=None, inline=None):
     ur = UnitRun(unit, variant)
     t0 = time.time()
@@ -116,14 +136,24 @@ def run_unit(unit, variant, multiple_errors=20, extra_args=(), rlimit=None, inli
     ur.build = b
     os.makedirs(BUILD, exist_ok=True)
     fname = "%s_%s.rs" % (unit, variant.replace("+", "_"))
-    path = os.path.join(BUILD, fname)
+    # every check process works in its own directory: checks of properties that share a unit may run at the same time
+    run_dir = _run_dir()
+    path = os.path.join(run_dir, fname)
     with open(path, "w") as f:
         f.write(b.text)
+    try:
+        # a copy for inspection (best effort; never read back)
+        tmp_ = os.path.join(BUILD, ".%s.%d" % (fname, os.getpid()))
+        with open(tmp_, "w") as f:
+            f.write(b.text)
+        os.replace(tmp_, os.path.join(BUILD, fname))
+    except OSError:
+        pass
     cmd = ["verus", fname, "--output-json", "--time", "--multiple-errors", str(multiple_errors),
            "--error-format=json", "--rlimit", str(rlimit or RLIMIT)] + list(extra_args)
     ur.cmd = " ".join(cmd)
     try:
-        p = subprocess.run(cmd, cwd=BUILD, capture_output=True, text=True, timeout=int(os.environ.get("VERIF_VERUS_TIMEOUT", "900")))
+        p = subprocess.run(cmd, cwd=run_dir, capture_output=True, text=True, timeout=int(os.environ.get("VERIF_VERUS_TIMEOUT", "900")))
     except subprocess.TimeoutExpired:
         ur.status, ur.reason = "undecided", "verus timed out"
         return ur
